@@ -36,7 +36,15 @@ type Contract struct {
 	Mode       string
 	NoAuto     bool // no automatic candidate invariants
 	Fresh      []*Clause
+	CallSites  []*CallSite
 	used       bool
+}
+
+type CallSite struct {
+	Name string
+	K    int
+	Cl   *Clause
+	hit  bool
 }
 
 type PureFn struct {
@@ -56,9 +64,9 @@ type Lemma struct {
 }
 
 var clauseKW = map[string]bool{"func": true, "pure": true, "requires": true, "ensures": true, "assigns": true,
-	"panics-if": true, "loop": true, "assumed": true, "mode": true, "lemma": true, "noauto": true, "uf": true, "axiom": true}
+	"panics-if": true, "loop": true, "callsite": true, "assumed": true, "mode": true, "lemma": true, "noauto": true, "uf": true, "axiom": true}
 
-var labelRe = regexp.MustCompile(`^(requires|ensures|panics-if)\[([A-Za-z0-9_.-]+)\]`)
+var labelRe = regexp.MustCompile(`^(requires|ensures|panics-if|callsite)\[([A-Za-z0-9_.-]+)\]`)
 
 type rawClause struct {
 	kw, label, text string
@@ -110,6 +118,7 @@ func readContractLines(path string) ([]rawClause, error) {
 }
 
 var pureRe = regexp.MustCompile(`^([A-Za-z_][A-Za-z0-9_]*)\s*\(([^)]*)\)\s*=\s*(.*)$`)
+var callsiteRe = regexp.MustCompile(`^([A-Za-z_][A-Za-z0-9_.]*)#([0-9]+)\s*:\s*(.*)$`)
 var loopRe = regexp.MustCompile(`^([0-9]+)\s*:\s*invariant\s+(.*)$`)
 
 // loadContracts parses one contract file. pkgPath=="" means fully qualified function names.
@@ -242,6 +251,19 @@ func (e *Engine) loadContractFile(path string, pkg *ssa.Package) error {
 					return err
 				}
 				cur.Loops[k] = append(cur.Loops[k], cl)
+			case "callsite":
+				m := callsiteRe.FindStringSubmatch(rc.text)
+				if m == nil {
+					return fmt.Errorf("%s:%d: bad callsite clause (want 'callsite Name#K: E')", path, rc.line)
+				}
+				k, _ := strconv.Atoi(m[2])
+				rc2 := rc
+				rc2.text = m[3]
+				cl, err := mk(rc2)
+				if err != nil {
+					return err
+				}
+				cur.CallSites = append(cur.CallSites, &CallSite{Name: m[1], K: k, Cl: cl})
 			case "assumed":
 				cur.Assumed = true
 				cur.AssumedWhy = rc.text
